@@ -123,6 +123,22 @@ def S(name: str) -> Sym:
     return Sym(("var", name))
 
 
+def opaque(fname: str, *args) -> Sym:
+    """A call that is NOT traced (e.g. into torch.distributions): rendered as the application of the Coq function
+    `fname` (a hand-written model the generated file must import) to the traced arguments."""
+    out = []
+    for a in args:
+        if isinstance(a, Sym):
+            out.append(a.expr)
+        elif isinstance(a, torch.Tensor) and a.numel() == 1:
+            out.append(("const", _rat(a.item())))
+        elif isinstance(a, (int, float, bool)):
+            out.append(("const", _rat(a)))
+        else:
+            raise Untraceable(f"argument of type {type(a).__name__} in opaque call {fname}")
+    return Sym(("app", fname) + tuple(out))
+
+
 def expr_of(x):
     """expression of a traced result (Sym, WeightedTensor of Sym, python/torch scalar)"""
     if hasattr(x, "value") and hasattr(x, "weight") and not isinstance(x, torch.Tensor):
@@ -175,6 +191,8 @@ def emit(e) -> str:
         return f"(Rmax {emit(e[1])} {emit(e[2])})"
     if k == "min2":
         return f"(Rmin {emit(e[1])} {emit(e[2])})"
+    if k == "app":      # opaque (hand-modelled) function applied to traced arguments, see `opaque`
+        return "(" + " ".join([e[1]] + [emit(a) for a in e[2:]]) + ")"
     if k == "where":
         c = e[1]
         a, b = emit(e[2]), emit(e[3])
